@@ -108,6 +108,10 @@ def finish(ctx, floor, explanation, trusted_base, assumptions, level='other', ex
     n_hold = sum(1 for o in ctx.obs if o.status == 'holds')
     n_und = sum(1 for o in ctx.obs if o.status == 'undecided')
     distinct = len({o.key() for o in ctx.obs if o.nontrivial and o.status != 'undecided'})
+    lines = []
+
+    def print(x):      # verdict lines are emitted after the evidence file is written
+        lines.append(x)
     print('%s: %d obligations evaluated, %d hold, %d undecided, %d violated (%d listed as known findings)'
           % (prop, len(ctx.obs), n_hold, n_und, len(viol) + len(knownhits), len(knownhits)))
     for o in ctx.obs:
@@ -172,4 +176,9 @@ def finish(ctx, floor, explanation, trusted_base, assumptions, level='other', ex
     }
     EVID.mkdir(exist_ok=True)
     (EVID / ('%s.json' % prop)).write_text(json.dumps(ev, indent=1, default=str))
+    try:
+        sys.stdout.write('\n'.join(lines) + '\n')
+        sys.stdout.flush()
+    except BrokenPipeError:
+        pass
     return code
